@@ -229,7 +229,15 @@ def runs : List Nat → List (Nat × Nat)
     | (a, b) :: rest => if t + 1 == a then (t, b) :: rest else (t, t) :: (a, b) :: rest
     | [] => [(t, t)]
 
-def Ep.sackChunk (e : Ep) : Chunk := .sack e.rcv.pl (runs (e.rcv.rq.mergeSort (fun a b => decide (a ≤ b))))
+/-- insertion sort (structural, so that concrete runs can be evaluated by the kernel) -/
+def insSorted (t : Nat) : List Nat → List Nat
+  | [] => [t]
+  | a :: l => if t ≤ a then t :: a :: l else a :: insSorted t l
+def sortNat : List Nat → List Nat
+  | [] => []
+  | a :: l => insSorted a (sortNat l)
+
+def Ep.sackChunk (e : Ep) : Chunk := .sack e.rcv.pl (runs (sortNat e.rcv.rq))
 
 /-- Go: gatherOutboundSackPackets -/
 def gatherSack (e : Ep) : Ep × List Pkt :=
